@@ -126,8 +126,57 @@ def _body(rng, n):
     return "".join(rng.choice(UNI_BODY) if rng.random() < 0.15 else rng.choice(ASCII_BODY) for _ in range(n))
 
 
-def gen_data(rng, canonical=False):
+class Sizes:
+    """size plan (notes/SIZE_STRESS.md): boundary lengths are handed out round-robin, so every run hits
+    every neighbourhood whatever the seed; `huge` bounds the number of ~64 KiB lines per plan"""
+    NAME = [33, 32, 31, 64, 65, 129, 257, 300, 63, 128, 256, 17, 16, 73, 81, 127, 255, 15, 9, 72]
+    LINE = [4096, 8193, 1025, 257, 65536, 129, 4097, 8192, 65, 1024, 65537, 4095, 80, 33, 8191, 1023, 72, 65535,
+            2, 7, 16, 17, 31, 32, 63, 64, 71, 73, 79, 81, 127, 128, 255, 256, 1, 8, 9, 15]
+
+    def __init__(self, offset=0, huge=3, p_name=0.5, p_line=0.4):
+        self.ni = offset
+        self.li = offset
+        self.huge = huge
+        self.p_name, self.p_line = p_name, p_line
+        self.used = {"name": set(), "line": set()}
+
+    def name(self, rng):
+        if rng.random() >= self.p_name:
+            return None
+        n = self.NAME[self.ni % len(self.NAME)]
+        self.ni += 1
+        self.used["name"].add(n)
+        return n
+
+    def line(self, rng):
+        if rng.random() >= self.p_line:
+            return None
+        while True:
+            n = self.LINE[self.li % len(self.LINE)]
+            self.li += 1
+            if n >= 65535:
+                if self.huge <= 0:
+                    continue
+                self.huge -= 1
+            self.used["line"].add(n)
+            return n
+
+
+def sized_text(rng, n):
+    """n characters (every other time pure ASCII, so that n is also the byte length), no D1 character,
+    no white space at the ends, no long runs of white space"""
+    ascii_only = rng.random() < 0.5
+    m = min(n, rng.randint(23, 61))
+    chunk = "".join(rng.choice(ASCII_BODY) if ascii_only or rng.random() > 0.15 else rng.choice(UNI_BODY) for _ in range(m))
+    s = (chunk * (n // m + 1))[:n]
+    fix = lambda ch: ch if not ch.isspace() else "x"
+    return fix(s[0]) + s[1:-1] + fix(s[-1]) if n > 1 else fix(s[0])
+
+
+def gen_data(rng, canonical=False, size=None):
     """trimmed first-line data: non-empty, no (Unicode) white space at either end, no D1 character"""
+    if size:
+        return sized_text(rng, size)
     if canonical:
         return "v%d" % rng.randrange(1000)
     if rng.random() < 0.6:
@@ -138,8 +187,10 @@ def gen_data(rng, canonical=False):
             return s
 
 
-def gen_cont(rng, canonical=False):
+def gen_cont(rng, canonical=False, size=None):
     """continuation line: blank/tab, then text with a non-white character (trailing blanks kept)"""
+    if size:
+        return rng.choice(" \t") + sized_text(rng, max(1, size - 1))
     if canonical:
         return " c%d" % rng.randrange(1000)
     r = rng.random()
@@ -148,9 +199,11 @@ def gen_cont(rng, canonical=False):
     return rng.choice(CONT_PREFIX) + gen_data(rng) + rng.choice(["", "", "", " ", "\t", "  "])
 
 
-def gen_key(rng, taken, canonical=False, avoid_mv=True):
+def gen_key(rng, taken, canonical=False, avoid_mv=True, size=None):
     for _ in range(1000):
-        if canonical or rng.random() < 0.7:
+        if size:
+            k = rng.choice(KEY_FIRST) + "".join(rng.choice(KEY_REST) for _ in range(size - 1))
+        elif canonical or rng.random() < 0.7:
             k = rng.choice(KEY_POOL)
         else:
             k = rng.choice(KEY_FIRST) + "".join(rng.choice(KEY_REST) for _ in range(rng.randint(0, 8)))
@@ -303,6 +356,25 @@ def has_ws(lines):
     return any(ln["c"] == "WsOnly" for ln in lines)
 
 
+def brief(got, want):
+    """compact description of a mismatch between two results (large documents)"""
+    a, b = repr(got), repr(want)
+    if len(a) + len(b) < 1500 or isinstance(got, tuple) or not isinstance(got, list) or not isinstance(want, list):
+        return "%s, specification: %s" % (a[:3000], b[:3000])
+    if len(got) != len(want):
+        head = "%d items, specification: %d items; " % (len(got), len(want))
+    else:
+        head = "%d items; " % len(got)
+    for i, (x, y) in enumerate(zip(got, want)):
+        if x != y:
+            if isinstance(x, list) and isinstance(y, list) and x and isinstance(x[0], tuple):
+                return head + "first difference in paragraph %d: %s" % (i + 1, brief(x, y))
+            return head + "first difference at item %d: %s, specification: %s" % (i + 1, repr(x)[:700], repr(y)[:700])
+    i = min(len(got), len(want))
+    return head + "first difference at item %d: %s, specification: %s" % (
+        i + 1, repr(got[i])[:700] if i < len(got) else "<missing>", repr(want[i])[:700] if i < len(want) else "<nothing>")
+
+
 def run_doc(job):
     """execute one concrete document through one API in one form; returns None or a message.
     job: {lines:[text], form, final_nl, api, expected:[[[k,v]]], expected_dump}"""
@@ -316,10 +388,10 @@ def run_doc(job):
     if api == "iter":
         got, ps = read_iter("Deb822", x)
         if got != exp:
-            return "list(Deb822.iter_paragraphs(<%s>)) = %r, specification: %r" % (form, got, exp)
+            return "list(Deb822.iter_paragraphs(<%s>)) = %s" % (form, brief(got, exp))
         d = dump_all(ps)
         if job.get("expected_dump") is not None and d != job["expected_dump"]:
-            return "dump() of the re-parsed paragraphs (<%s>) = %r, first dump %r" % (form, d, job["expected_dump"])
+            return "dump() of the re-parsed paragraphs (<%s>) = %s, first dump %s" % (form, repr(d)[:1500], repr(job["expected_dump"])[:1500])
         return None
     clsname = {"one": "Deb822", "Dsc": "Dsc", "Changes": "Changes", "Dsc.iter": "Dsc", "Changes.iter": "Changes"}[api]
     if api.endswith(".iter"):
@@ -330,11 +402,11 @@ def run_doc(job):
         ps = [p]
         want = exp[0] if exp else []
     if got != want:
-        return "%s(<%s>) = %r, specification: %r" % (api if api != "one" else "Deb822", form, got, want)
+        return "%s(<%s>) = %s" % (api if api != "one" else "Deb822", form, brief(got, want))
     if job.get("expected_dump") is not None and want:
         d = dump_all(ps)
         if d != job["expected_dump"]:
-            return "dump() of the re-parsed %s (<%s>) = %r, first dump %r" % (clsname, form, d, job["expected_dump"])
+            return "dump() of the re-parsed %s (<%s>) = %s, first dump %s" % (clsname, form, repr(d)[:1500], repr(job["expected_dump"])[:1500])
     return None
 
 
@@ -384,7 +456,7 @@ def run_leak(job):
         got, ps = read_iter("Deb822", make_input(form, texts))
         if got != exp:
             return ("parse #%d of the same text (<%s>, earlier results mutated by the caller): "
-                    "list(Deb822.iter_paragraphs(x)) = %r, specification: %r" % (rnd + 1, form, got, exp))
+                    "list(Deb822.iter_paragraphs(x)) = %s" % (rnd + 1, form, brief(got, exp)))
         if any(a is b for a in ps for b in seen):
             return "parse #%d of the same text (<%s>) returned a paragraph object that was returned before" % (rnd + 1, form)
         if len(set(map(id, ps))) != len(ps):
@@ -430,8 +502,8 @@ def run_leak(job):
     except Exception as e:
         return "interleaved iter_paragraphs generators raised %s: %s" % (type(e).__name__, e)
     if got1 != exp or got2 != o_exp:
-        return ("two iter_paragraphs generators in progress (<%s> / <%s>): first gives %r (specification %r), second %r "
-                "(specification %r)" % (fa, fb, got1, exp, got2, o_exp))
+        return ("two iter_paragraphs generators in progress (<%s> / <%s>): first gives %s; second gives %s"
+                % (fa, fb, brief(got1, exp), brief(got2, o_exp)))
     if len(set(map(id, first + second))) != len(first + second):
         return "two iter_paragraphs generators in progress yielded a shared object"
     job["_keep"] = (first, exp)
@@ -458,24 +530,26 @@ def run_keepalive(job):
 class CaseConc:
     """model names (field index) and text ids -> concrete strings; pads for the original values"""
 
-    def __init__(self, rng, case, canonical=False):
+    def __init__(self, rng, case, canonical=False, sizes=None):
         self.key = {}
         taken = {NEW_KEY.lower()}
+        sz_name = (lambda: sizes.name(rng)) if sizes else (lambda: None)
+        sz_line = (lambda: sizes.line(rng)) if sizes else (lambda: None)
         self.text = {0: ""}
         self.pad = {}
         for p in case["doc"]:
             for f in p:
                 if f["k"] not in self.key:
-                    k = gen_key(rng, taken, canonical)
+                    k = gen_key(rng, taken, canonical, size=sz_name())
                     taken.add(k.lower())
                     self.key[f["k"]] = k
                 for j, tid in enumerate(f["v"]):
                     if j == 0:
                         if tid != 0:
-                            self.text[tid] = gen_data(rng, canonical)
+                            self.text[tid] = gen_data(rng, canonical, size=sz_line())
                         self.pad[id(f)] = ("", "") if canonical else (rng.choice(PAD_L), rng.choice(PAD_R))
                     else:
-                        self.text[tid] = gen_cont(rng, canonical)
+                        self.text[tid] = gen_cont(rng, canonical, size=sz_line())
 
     def value(self, f, padded):
         first = self.text[f["v"][0]]
@@ -558,6 +632,23 @@ def sep_lines(rng, kinds):
             for c in kinds]
 
 
+def big_variants(rng, base, np_):
+    """the input families of BigInvariant (large documents)"""
+    n = len(base)
+    yield "plain", base, False
+    yield "comments-all", insert_comments(rng, base, set(range(n + 1))), False
+    yield "lead", sep_lines(rng, ["Comment", "Blank"]) + base, False
+    if n > 1000:
+        return
+    for i in (0, n // 2, n):
+        yield "comment@%d" % i, insert_comments(rng, base, {i}), False
+    for kinds in (["Blank"], ["Blank", "Comment"]):
+        yield "lead", sep_lines(rng, kinds) + base, False
+    yield "trail", base + sep_lines(rng, ["Blank", "Blank"]), False
+    if np_ == 1:
+        yield "armor[nh=1,b=1,sb=1,sh=0]", armor_lines(rng, base, {"nh": 1, "b": True, "sb": True, "sh": False}), False
+
+
 def variants(rng, base, np_, full, armor_hdrs, armor_ok=True, sig_bools=(True, False)):
     """the families of inputs for which TLC has checked that the reader returns P.
     yields (name, lines, diag) -- diag: white-space-only lines involved (not a verdict)"""
@@ -602,10 +693,20 @@ def variants(rng, base, np_, full, armor_hdrs, armor_ok=True, sig_bools=(True, F
             yield tag + "+lead-ws", lead_seq(rng, ws=True) + a, True
 
 
-def replay_case(drifts, case, rng, canonical, full, stats, armor_hdrs, armor_fields=3, sig_bools=(True, False), prev=None):
+def replay_case(drifts, case, rng, canonical, full, stats, armor_hdrs, armor_fields=3, sig_bools=(True, False), prev=None,
+                sizes=None, big=False):
     """returns list of (job, message) violations; diagnostic mismatches are appended to drifts"""
-    conc = CaseConc(rng, case, canonical)
+    conc = CaseConc(rng, case, canonical, sizes=sizes)
     np_ = len(case["doc"])
+    for k in conc.key.values():
+        stats["max:name_len"] = max(stats.get("max:name_len", 0), len(k))
+    for t in conc.text.values():
+        stats["max:line_len"] = max(stats.get("max:line_len", 0), len(t))
+    stats["max:paragraphs"] = max(stats.get("max:paragraphs", 0), np_)
+    for p in case["doc"]:
+        stats["max:fields"] = max(stats.get("max:fields", 0), len(p))
+        for f in p:
+            stats["max:continuation_lines"] = max(stats.get("max:continuation_lines", 0), len(f["v"]) - 1)
     orig = conc.paragraphs(case["doc"], padded=True)
     expected = conc.paragraphs(case["parse"], padded=False)     # TLC's Parse(Dump(P)), concretized
     text1 = build_and_dump(orig)
@@ -649,8 +750,13 @@ def replay_case(drifts, case, rng, canonical, full, stats, armor_hdrs, armor_fie
     if msg:
         bad.append((job, msg))
     stats["_keep"] = {"objs": keep[0] if keep else [], "lines": job["lines"], "expected": exp_json, "form": fa}
-    vs = base_jobs if base_jobs is not None else variants(
-        rng, model, np_, full, armor_hdrs, armor_ok=sum(len(p) for p in case["doc"]) <= armor_fields, sig_bools=sig_bools)
+    if base_jobs is not None:
+        vs = base_jobs
+    elif big:
+        vs = big_variants(rng, model, np_)
+    else:
+        vs = variants(rng, model, np_, full, armor_hdrs, armor_ok=sum(len(p) for p in case["doc"]) <= armor_fields,
+                      sig_bools=sig_bools)
     nforms = len(FORMS)
     for vi, (name, lines, diag) in enumerate(vs):
         if lines and lines[0]["c"] != "?":
@@ -662,8 +768,8 @@ def replay_case(drifts, case, rng, canonical, full, stats, armor_hdrs, armor_fie
         apis = ["iter"]
         if np_ >= 1:
             apis.append("one")
-        if np_ == 1 and not any(k.lower() in MV_NAMES for k, _ in expected[0]):
-            apis += ["Dsc", "Changes"] + (["Dsc.iter"] if full else [])
+        if np_ == 1 and not any(k.lower() in MV_NAMES for k, _ in expected[0]) and (not big or name == "plain" or name.startswith("armor")):
+            apis += ["Dsc", "Changes"] + (["Dsc.iter"] if full and not big else [])
         zone = gpgmv_zone(lines) if lines and lines[0]["c"] != "?" else False
         for form in forms:
             final_nl = True
@@ -693,7 +799,7 @@ def replay_case(drifts, case, rng, canonical, full, stats, armor_hdrs, armor_fie
 def replay_chunk(args):
     """replay a slice of the CASE list (runs in a worker process in the thorough tier);
     every case has its own seeded generator, so the result does not depend on the slicing"""
-    seed, repo, items, k, quick, armor_hdrs, armor_fields = args
+    seed, repo, items, k, quick, armor_hdrs, armor_fields, chunk_no = args
     import sys
     lib = os.path.join(repo, "lib")
     if lib not in sys.path:
@@ -701,15 +807,22 @@ def replay_chunk(args):
     stats = {"runs": 0, "full": 0}
     drifts, bad = [], []
     prev = None
+    # size stress (notes/SIZE_STRESS.md): every 6th case (thorough: every 3rd second concretization) gets
+    # names / lines of boundary lengths; the large documents get a few of them
+    sizes = Sizes(offset=chunk_no * 5, huge=3 if chunk_no == 0 else 1)
+    bigsizes = Sizes(offset=chunk_no * 3 + 7, huge=1, p_name=0.5, p_line=0.02)
     for idx, case in items:
         nfields = sum(len(p) for p in case["doc"])
-        for c in range(k):
+        big = bool(case.get("big"))
+        for c in range(1 if big else k):
             crng = random.Random("%s-case-%d-%d" % (seed, idx, c))
-            full = (nfields <= 2) if quick else (nfields <= 3 and c == 0)
+            full = not big and ((nfields <= 2) if quick else (nfields <= 3 and c == 0))
             stats["full"] += full
-            b = replay_case(drifts, case, crng, canonical=(c == 0 and idx % 2 == 0), full=full, stats=stats,
+            stressed = big or (idx % 6 == 3 if quick else (c == 1 and idx % 3 == 0))
+            stats["size_stressed_cases"] = stats.get("size_stressed_cases", 0) + stressed
+            b = replay_case(drifts, case, crng, canonical=(c == 0 and idx % 2 == 0 and not stressed), full=full, stats=stats,
                             armor_hdrs=armor_hdrs, armor_fields=armor_fields, sig_bools=(True,) if quick else (True, False),
-                            prev=prev)
+                            prev=prev, sizes=(bigsizes if big else sizes) if stressed else None, big=big)
             bad += [(idx, job, msg) for job, msg in b]
             cur = stats.pop("_keep", None)
             # (1) the objects of the previous case are still alive: they must not have changed
@@ -726,27 +839,33 @@ def replay_chunk(args):
         if len(bad) >= 5:
             break
         del drifts[20:]
+    stats["set:name_lengths"] = sorted(sizes.used["name"] | bigsizes.used["name"])
+    stats["set:line_lengths"] = sorted(sizes.used["line"] | bigsizes.used["line"])
     return stats, drifts, bad
 
 
 # ------------------------------------------------------------------ (b) recorded documents
 
-def gen_paragraph(rng, comments, keys_taken=None):
+def gen_paragraph(rng, comments, keys_taken=None, sizes=None, nfields=None, nconts=None, canonical=False):
     lines = []
     taken = set()
-    for _ in range(rng.randint(1, 5)):
-        k = gen_key(rng, taken, avoid_mv=False)
+    sz_name = (lambda: sizes.name(rng)) if sizes else (lambda: None)
+    sz_line = (lambda: sizes.line(rng)) if sizes else (lambda: None)
+    for fi in range(nfields or rng.randint(1, 5)):
+        k = gen_key(rng, taken, avoid_mv=False, size=sz_name()) if not canonical or sizes else "F%d" % fi
         taken.add(k.lower())
         if rng.random() < 0.3:
             lines.append(multi_line(rng, k))
             nc = rng.choice([0, 1, 1, 2, 3])
         else:
-            lines.append(single_line(rng, k, gen_data(rng)))
+            lines.append(single_line(rng, k, gen_data(rng, canonical, size=sz_line())))
             nc = rng.choice([0, 0, 0, 1, 2])
+        if nconts is not None:
+            nc = nconts if fi % 2 == 0 else 0
         for _ in range(nc):
             if comments and rng.random() < 0.25:
                 lines.append(L("Comment", gen_comment(rng)))
-            t = gen_cont(rng)
+            t = gen_cont(rng, canonical, size=sz_line())
             lines.append(L("Cont", t, "", t))
         if comments and rng.random() < 0.25:
             lines.append(L("Comment", gen_comment(rng)))
@@ -762,7 +881,26 @@ def blanks(rng, lo, hi, comments):
     return out
 
 
-def gen_doc(rng, maxpara=8):
+# (paragraphs, fields, continuation lines) of the large recorded documents: counts around 10 / 33 / 100 /
+# 257 / 1000 (notes/SIZE_STRESS.md); the last ones only in the thorough tier
+BIG_TRACE_DOCS = [(1000, 1, 0), (100, 2, 1), (1, 100, 0), (1, 1, 150), (10, 10, 2), (33, 3, 9), (2, 2, 101), (1, 10, 17),
+                  (257, 1, 1), (1, 33, 33), (101, 1, 0), (11, 11, 11), (1, 257, 0), (1000, 2, 1)]
+
+
+def gen_big_doc(rng, dims, sizes):
+    """a large in-domain document: np paragraphs x nf fields, every other field with nc continuation lines;
+    short texts except for a few boundary-length names / lines"""
+    np_, nf, nc = dims
+    comments = rng.random() < 0.5
+    lines = []
+    for i in range(np_):
+        if i:
+            lines += blanks(rng, 1, 2 if np_ < 500 else 1, comments and np_ < 500)
+        lines += gen_paragraph(rng, comments and rng.random() < 0.1, sizes=sizes, nfields=nf, nconts=nc, canonical=True)
+    return lines
+
+
+def gen_doc(rng, maxpara=8, sizes=None):
     """in-domain document: paragraphs of fields, blank separators, comments anywhere, optional armor"""
     comments = rng.random() < 0.6
     lines = []
@@ -771,7 +909,7 @@ def gen_doc(rng, maxpara=8):
             lines.append(L("Comment", gen_comment(rng)))
         lines += blanks(rng, 0, 2, comments)
     if rng.random() < 0.25:
-        body = gen_paragraph(rng, comments)
+        body = gen_paragraph(rng, comments, sizes=sizes)
         shape = {"nh": rng.choice([0, 1, 1, 2]), "b": rng.random() < 0.7, "sb": rng.random() < 0.7, "sh": rng.random() < 0.3}
         lines += armor_lines(rng, body, shape)
         if comments and rng.random() < 0.3:
@@ -781,7 +919,7 @@ def gen_doc(rng, maxpara=8):
         for i in range(np_):
             if i:
                 lines += blanks(rng, 1, 3, comments)
-            lines += gen_paragraph(rng, comments)
+            lines += gen_paragraph(rng, comments, sizes=sizes)
     if rng.random() < 0.4:
         lines += blanks(rng, 1, 2, comments)
     return lines
@@ -791,13 +929,17 @@ def proj(paragraphs):
     return [[{"k": k, "v": v.split("\n")} for k, v in p] for p in paragraphs]
 
 
-def record(lines, form, final_nl=True, strict=None, keep=None):
+def record(lines, form, final_nl=True, strict=None, keep=None, only=None):
     """prefix closure: the real reader on the first i lines, i = 1..n
-    (keep: list that receives the paragraph objects of the complete document)"""
+    (keep: list that receives the paragraph objects of the complete document;
+     only: set of prefix lengths to observe -- large documents; the others are logged as np = -2)"""
     texts = [ln["text"] for ln in lines]
     obs = []
     res = []
     for i in range(1, len(texts) + 1):
+        if only is not None and i not in only and i != len(texts):
+            obs.append({"np": -2, "last": []})
+            continue
         last_nl = final_nl or i < len(texts) or texts[i - 1] == ""
         res, ps = read_iter("Deb822", make_input(form, texts[:i], last_nl), strict)
         if keep is not None and i == len(texts):
@@ -1038,8 +1180,12 @@ def run(ctx):
         dict(name="lts", cfg="MC_Deb822Reader_lts.cfg", workers=1, tags={"EDGE"}),
         dict(name="lts_nows", cfg="MC_Deb822Reader_lts_nows.cfg", workers=1, tags={"EDGE"}),
     ]
+    bigsel = "{1, 2, 3, 4, 5, 6, 7, 8}" if quick else "{1, 2, 3, 4, 5, 6, 7, 8, 9, 10, 11}"
+    big_job = dict(name="bnd_big", workers=workers, tags={"CASE"}, java_opts=["-Xss256m"],
+                   cfg=bnd_cfg(["BigInvariant", "EmitCase"], BigSel=bigsel, Emit="TRUE").replace("SPECIFICATION BSpec", "SPECIFICATION BigSpec"))
     if quick:
         heavy = [
+            big_job,
             dict(name="bnd_docs", cfg=bnd_cfg(inv_multi, MaxTotal=str(maxtotal), Emit="TRUE"), workers=workers, tags={"CASE"}),
             dict(name="bnd_armor", cfg=bnd_cfg(inv_armor, MaxPara="1", MaxTotal=str(armor_fields), ArmorHdrs=hdrs,
                                                SigBools="{TRUE}"), workers=workers, tags=set()),
@@ -1047,6 +1193,7 @@ def run(ctx):
     else:
         heavy = [
             dict(name="bnd_deep", cfg=bnd_cfg(inv_deep, MaxTotal="5"), workers=workers, tags=set()),
+            big_job,
             dict(name="bnd_docs", cfg=bnd_cfg(inv_multi, MaxTotal=str(maxtotal), Emit="TRUE"), workers=workers, tags={"CASE"}),
             dict(name="bnd_armor", cfg=bnd_cfg(inv_armor, MaxPara="1", MaxTotal=str(armor_fields), ArmorHdrs=hdrs),
                  workers=workers, tags=set()),
@@ -1070,7 +1217,7 @@ def run(ctx):
 
     def one(j):
         return core.run_tlc(j.get("module", "Deb822Reader"), j["cfg"], ctx.work, workers=j["workers"], want_tags=j["tags"],
-                            timeout=timeout)
+                            timeout=timeout, java_opts=j.get("java_opts"))
 
     # the heavy configurations in two chains sharing the worker budget, the light ones (1 worker) beside them
     with ThreadPoolExecutor(max_workers=2) as hx, ThreadPoolExecutor(max_workers=3) as lx:
@@ -1110,6 +1257,18 @@ def run(ctx):
     if len(cases) != res["bnd_docs"].distinct or any(not isinstance(c, dict) for c in cases):
         raise core.MachineryError("bounded configuration: %d CASE lines for %d states" % (len(cases), res["bnd_docs"].distinct))
     cases.sort(key=lambda c: (c["np"], len(c["lines"]), skey(c["shape"])))
+    bigcases = [c for c in res["bnd_big"].printed.get("CASE", []) if isinstance(c, dict) and c["np"] > 0]
+    if 2 * len(bigcases) != res["bnd_big"].distinct:
+        raise core.MachineryError("size-stress configuration: %d CASE lines for %d states" % (len(bigcases), res["bnd_big"].distinct))
+    bigcases.sort(key=lambda c: (len(c["lines"]), c["np"]))
+    for c in bigcases:
+        c["big"] = True
+    # the large documents are spread over the list (and over the worker processes of the thorough tier)
+    step = max(1, len(cases) // (len(bigcases) + 1))
+    for i, c in enumerate(bigcases):
+        cases.insert(min(len(cases), (i + 1) * step + i), c)
+    ctx.extra["model"]["large_documents(paragraphs x fields x continuation lines)"] = [
+        "%dx%dx%d" % (c["np"], max(len(p) for p in c["doc"]), max(len(f["v"]) - 1 for p in c["doc"] for f in p)) for c in bigcases]
 
     tm["tlc_design"] = round(time.time() - t_, 1)
     t_ = time.time()
@@ -1121,7 +1280,7 @@ def run(ctx):
     items = list(enumerate(cases))
     nproc = 1 if quick else max(1, min(8, budget))
     nchunks = 1 if nproc == 1 else nproc * 6
-    chunks = [(ctx.seed, ctx.repo, items[i::nchunks], k, quick, armor_hdrs, armor_fields) for i in range(nchunks)]
+    chunks = [(ctx.seed, ctx.repo, items[i::nchunks], k, quick, armor_hdrs, armor_fields, i) for i in range(nchunks)]
     if nproc == 1:
         outs = [replay_chunk(c) for c in chunks]
     else:
@@ -1133,7 +1292,12 @@ def run(ctx):
     n_unspec_logged = 0
     for st, drifts, bad in outs:
         for kk, v in st.items():
-            stats[kk] = stats.get(kk, 0) + v
+            if kk.startswith("max:"):
+                stats[kk] = max(stats.get(kk, 0), v)
+            elif kk.startswith("set:"):
+                stats[kk] = sorted(set(stats.get(kk, [])) | set(v))
+            else:
+                stats[kk] = stats.get(kk, 0) + v
         for d in drifts:
             if d.startswith("UNSPECIFIED"):
                 n_unspec_logged += 1
@@ -1210,13 +1374,28 @@ def run(ctx):
     ndocs = 250 if quick else 4000
     traces, meta = [], []
     prev_keep = None
+    tsizes = Sizes(offset=ctx.seed % 7, huge=2 if quick else 6, p_name=0.4, p_line=0.25)
+    bsizes = Sizes(offset=3 + ctx.seed % 5, huge=1, p_name=0.3, p_line=0.01)
+    bigdims = BIG_TRACE_DOCS[:8] if quick else BIG_TRACE_DOCS
+    bigpos = {(j + 1) * (ndocs // (len(bigdims) + 1)): d for j, d in enumerate(bigdims)}
+    tstat = {"paragraphs": 0, "fields": 0, "continuation_lines": 0, "lines": 0}
     for i in range(ndocs):
-        lines = gen_doc(rng)
+        only = None
+        if i in bigpos:
+            lines = gen_big_doc(rng, bigpos[i], bsizes)
+            n = len(lines)
+            only = {1, 2, 3, n - 2, n - 1, n} | set(rng.sample(range(1, n + 1), min(n, 18)))
+            tstat["paragraphs"] = max(tstat["paragraphs"], bigpos[i][0])
+            tstat["fields"] = max(tstat["fields"], bigpos[i][1])
+            tstat["continuation_lines"] = max(tstat["continuation_lines"], bigpos[i][2])
+            tstat["lines"] = max(tstat["lines"], n)
+        else:
+            lines = gen_doc(rng, sizes=tsizes if i % 5 == 2 else None)
         check_domain(lines)
         form = FORMS[i % len(FORMS)]
         final_nl = not (lines[-1]["text"] != "" and rng.random() < 0.3)
         keep = []
-        traces.append(record(lines, form, final_nl, keep=keep))
+        traces.append(record(lines, form, final_nl, keep=keep, only=only))
         meta.append({"texts": [ln["text"] for ln in lines], "form": form, "final_nl": final_nl})
         # the objects of the previous document are still alive: they must still show what was recorded
         # for them (and what TLC validates below)
@@ -1258,6 +1437,13 @@ def run(ctx):
     ctx.evaluations += sum(len(t["lines"]) for t in traces)
     for i in range(len(traces)):
         ctx.distinct.add(("trace", i))
+    ctx.extra["size_stress"] = {
+        "replay": {k[4:]: v for k, v in ctx.extra["replay"].items() if k.startswith(("max:", "set:"))},
+        "traces": {"max": tstat, "large_documents": ["%dx%dx%d" % d for d in bigdims],
+                   "name_lengths": sorted(tsizes.used["name"] | bsizes.used["name"]),
+                   "line_lengths": sorted(tsizes.used["line"] | bsizes.used["line"]),
+                   "max_name_len": max((len(l["k"]) for t in traces for l in t["lines"]), default=0),
+                   "max_line_len": max((len(x) for m in meta for x in m["texts"]), default=0)}}
     ctx.extra["traces_recorded"] = len(traces)
     ctx.extra["trace_lines"] = sum(len(t["lines"]) for t in traces)
     ctx.extra["traces_rejected"] = len(rejected)
@@ -1269,9 +1455,9 @@ def run(ctx):
         m = meta[i - 1]
         ctx.violation({"kind": "trace", "lines": [dict(l, text=x) for l, x in zip(traces[i - 1]["lines"], m["texts"])],
                        "form": m["form"], "final_nl": m["final_nl"], "first_unexplained_line": at + 1},
-                      "reader not explained by Deb822Reader: after line %d (%r) of %r [%s] the real result is %r"
-                      % (at + 1, m["texts"][at] if at < len(m["texts"]) else None, m["texts"], m["form"],
-                         traces[i - 1]["obs"][at] if at < len(traces[i - 1]["obs"]) else None))
+                      "reader not explained by Deb822Reader: after line %d (%s) of %s [%s] the real result is %s"
+                      % (at + 1, repr(m["texts"][at] if at < len(m["texts"]) else None)[:300], repr(m["texts"])[:1200], m["form"],
+                         repr(traces[i - 1]["obs"][at] if at < len(traces[i - 1]["obs"]) else None)[:1500]))
 
     # 4. diagnostic walks under the non-default strictness flag (thorough)
     if not quick:
